@@ -40,6 +40,8 @@ def plan(tier, seed):
     for s in range(n):
         jobs.append({"variant": "c" if s % 2 else "py", "part": "ipv6", "shard": s, "nshards": n, "params": {"addrs": 600 if thorough else 40}})
         jobs.append({"variant": "c" if s % 2 else "py", "part": "labels", "shard": s, "nshards": n, "params": {"n": 200000 if thorough else 5000}})
+    for s in range(2):
+        jobs.append({"variant": "c" if s % 2 else "py", "part": "optree", "shard": s, "nshards": 2, "params": {"n": 150000 if thorough else 6000}})
     return jobs
 
 
@@ -450,7 +452,47 @@ def run_labels(ctx):
                 check_host_invariants(ctx, u, {"route": route, "host": h, "class": "ipv4"}, want_raw=h)
 
 
+def invariant(ctx, u, case):
+    """The canonical-host invariants on a URL produced by ANY chain of operations (the lenient parser lets non-reg-name text in;
+    for such hosts only what does not depend on the grammar is judged, as in the kernels)."""
+    raw = guarded(lambda: u.raw_host)
+    if is_exc(raw) or not raw:
+        return
+    addr = zone = None
+    if ":" in raw:
+        if raw[:1] in "vV":
+            ctx.count("optree_ipvfuture_skipped")
+            return
+        addr, sep, zone = raw.partition("%")
+        zone = zone if sep else None
+        if zone is not None and not zone.isascii():
+            ctx.count("optree_nonascii_zone_skipped")  # finding D12's territory (C01)
+            return
+    elif not (hostm.is_reg_name(raw) or hostm.is_ipv4(raw)):
+        ctx.count("optree_non_regname_host_skipped")
+        return
+    else:
+        labels = raw.split(".")
+        if any(lb == "" for lb in labels[:-1]) or any(len(lb) > 63 for lb in labels):
+            ctx.count("optree_empty_or_long_label_skipped")  # not a name IDNA can round-trip; the lenient parser lets it in
+            return
+        if any(lb.startswith("xn--") for lb in labels) and is_exc(guarded(lambda: u.host)):
+            ctx.count("optree_invalid_alabel_skipped")  # garbage punycode accepted by the lenient parser: decoding raises ValueError (C19's allowance)
+            return
+    ctx.ev(("optree", "ip6" if addr else "name", case.get("used_intermediates")))
+    check_host_invariants(ctx, u, dict(case, **{"class": "optree"}), addr=addr, zone=zone, chain=False)
+    ctx.count("optree_checked")
+
+
 def run(ctx):
+    if ctx.part == "optree":
+        from ..ops import run_optrees
+
+        return run_optrees(ctx, invariant, ctx.params["n"], surrogates=False)
+    if ctx.part == "replay" and "op" in ctx.params["replay"]["case"]:
+        from ..ops import replay_optree
+
+        return replay_optree(ctx, ctx.params["replay"]["case"], invariant)
     if ctx.part == "replay":
         from yarl import URL
 
